@@ -242,12 +242,12 @@ func c14rCheck(w *c14rWorld, r *mc.Result) mc.Verdict {
 			}
 			ok := false
 			for _, s := range w.subs {
-				if s.slot == d.slot && s.committee == phase0.CommitteeIndex(d.val%2) && s.at < w.slotStart(d.slot) {
+				if s.slot == d.slot && s.committee == c03Committee(d.val) && s.at < w.slotStart(d.slot) {
 					ok = true
 				}
 			}
 			if !ok {
-				return fail("future-duty-not-subscribed", fmt.Sprintf("validator %d's duty in slot %d committee %d (obtained in slot %d) was never subscribed", d.val, d.slot, d.val%2, fs))
+				return fail("future-duty-not-subscribed", fmt.Sprintf("validator %d's duty in slot %d committee %d (obtained in slot %d) was never subscribed", d.val, d.slot, c03Committee(d.val), fs))
 			}
 		}
 	}
@@ -287,13 +287,13 @@ func c14rCheck(w *c14rWorld, r *mc.Result) mc.Verdict {
 		committees := map[phase0.CommitteeIndex]bool{}
 		for _, val := range c.vals {
 			if val != 2 { // validator 2 is never selected as aggregator
-				committees[phase0.CommitteeIndex(val%2)] = true
+				committees[c03Committee(val)] = true
 			}
 		}
 		got := map[phase0.CommitteeIndex]int{}
 		for _, a := range w.aggs {
 			if a.slot == c.slot {
-				got[phase0.CommitteeIndex(a.val%2)]++
+				got[c03Committee(a.val)]++
 				wantAt := w.slotStart(c.slot) + int64(8*time.Second)
 				if attestEnd > wantAt {
 					wantAt = attestEnd // the attester took longer than the aggregation delay: the job runs at once
